@@ -448,6 +448,9 @@ func (c *Ctx) TLC(o TLCOpt) (*TLCResult, error) {
 			end = len(res.Out)
 		}
 		res.ErrText = res.Out[idx:end]
+		if strings.Contains(res.Out, "Parsing or semantic analysis failed") || strings.Contains(res.Out, "Semantic errors:") {
+			return res, fmt.Errorf("TLC %s: the specification does not parse:\n%s", o.Spec, res.ErrText) // never an accepted "error" outcome
+		}
 		if !o.AllowError {
 			return res, fmt.Errorf("TLC %s failed: %v\n%s", o.Spec, err, res.ErrText)
 		}
